@@ -46,6 +46,7 @@ type Op struct {
 	O  int  `json:"origin"`
 	B  int  `json:"blind"`
 	X  int  `json:"anon"`                 // 0: the origin's own anonymous origin id; 1: one id shared by all origins
+	F  bool `json:"in_flight,omitempty"`  // a second request of the same client for the same origin (next blind) is verified and evaluated before this one's index is finalized, and finalized after it
 	R  bool `json:"reregister,omitempty"` // before this request the issuer registers origin O again, with the index key the other key set has for it
 }
 
@@ -53,7 +54,7 @@ func (o Op) label() string {
 	if o.R {
 		return fmt.Sprintf("c%dk%d:reregister(o%d)+o%db%d", o.C+1, o.KS, o.O+1, o.O+1, o.B+1)
 	}
-	return fmt.Sprintf("c%dk%do%db%d%s", o.C+1, o.KS, o.O+1, o.B+1, map[int]string{0: "", 1: "x"}[o.X])
+	return fmt.Sprintf("c%dk%do%db%d%s%s", o.C+1, o.KS, o.O+1, o.B+1, map[int]string{0: "", 1: "x"}[o.X], map[bool]string{true: "+inflight"}[o.F])
 }
 
 var seedBase int64
@@ -320,7 +321,35 @@ func applyInner(s *State, op Op) (string, *mc.Viol) {
 	if op.X == 1 {
 		a.AnonOrigin = mc.Fill(seedBase, "anon-shared", 32)
 	}
-	out, se := wd.w.Flow(att, a)
+	var out *px.Out
+	var se *px.StageErr
+	var companion *mc.Viol
+	if op.F {
+		// two requests of this client in flight at the attester at once
+		p1, se1 := wd.w.Begin(att, a)
+		out, se = p1.Out, se1
+		if se1 == nil {
+			a2 := a
+			a2.Blind = blind((op.B + 1) % 4)
+			a2.Nonce = mc.Fill(seedBase, "nonce2-"+here, 32)
+			a2.AnonOrigin = append([]byte{}, a.AnonOrigin...)
+			p2, se2 := wd.w.Begin(att, a2)
+			out, se = wd.w.End(att, p1)
+			if se == nil && se2 != nil {
+				se = se2
+			}
+			if se == nil {
+				out2, se3 := wd.w.End(att, p2)
+				if se3 != nil {
+					companion = &mc.Viol{Sig: "honest type-3 flow fails at " + se3.Stage + " (second request in flight)", What: s.hist + op.label() + ": " + se3.Error()}
+				} else if !bytes.Equal(out2.IndexID, out.IndexID) {
+					companion = &mc.Viol{Sig: "ID differs between two requests of the same client for the same origin (requests in flight together)", What: fmt.Sprintf("%s%s: %x vs %x", s.hist, op.label(), out.IndexID, out2.IndexID)}
+				}
+			}
+		}
+	} else {
+		out, se = wd.w.Flow(att, a)
+	}
 	// the attester binds an origin's issuer id to the first anonymous id it saw for it; a
 	// request of the same origin under the OTHER anonymous id is legitimately refused (C09's
 	// subject) and tells nothing about the ID
@@ -396,6 +425,9 @@ func applyInner(s *State, op Op) (string, *mc.Viol) {
 		}
 	}
 	s.keptv = append(s.keptv, kept{o: op.O, id: id, want: append([]byte{}, id...)})
+	if v == nil {
+		v = companion
+	}
 	return class, v
 }
 
@@ -524,10 +556,11 @@ func newSeq(c, ks, depth int) *mc.Seq[*State, Op] {
 	}
 	for o := 0; o < nOrigins; o++ {
 		menu = append(menu, Op{C: c, KS: ks, O: o, B: 3, R: true})
+		menu = append(menu, Op{C: c, KS: ks, O: o, B: 0, F: true})
 	}
 	var menu3 []Op
 	for _, o := range menu {
-		if o.R || o.B == 0 || o.B == 3 {
+		if o.R || (!o.F && (o.B == 0 || o.B == 3)) {
 			menu3 = append(menu3, o)
 		}
 	}
@@ -574,7 +607,7 @@ func main() {
 		r.DoReplay()
 	}
 
-	r.SetRule("for every client in {c1,c2,c3} and index-key set in {0,1}: every sequence of 1..depth honest requests over the menu origin{o1,o2,o3} x blind{b1..b6} (18 letters, no state merging) on one attester; each step runs create -> VerifyRequest -> Evaluate -> FinalizeIndex -> FinalizeToken; every history is a distinct case and non-trivial (an ID is derived at every step); plus all pairs of the 18 (client, index key) combinations for distinctness")
+	r.SetRule("for every client in {c1,c2,c3} and index-key set in {0,1}: every sequence of 1..depth honest requests over the menu origin{o1,o2,o3} x blind{b1..b6}, plus per origin a request with a second one in flight (21 letters, no state merging) on one attester; each step runs create -> VerifyRequest -> Evaluate -> FinalizeIndex -> FinalizeToken; every history is a distinct case and non-trivial (an ID is derived at every step); plus all pairs of the 18 (client, index key) combinations for distinctness")
 	r.Assume("values come from fixed alphabets: client secrets {1, leading-zero-byte, DRBG}; index keys {1, N-1, leading-zero | 2, DRBG, two-leading-zeros}; blinds {1, N-1, leading-zero, DRBG, 2^384-1, 64 bytes}; client secrets and index keys in [1, N-1]",
 		"the anonymous origin id argument is fixed per origin (honest attester input), so FinalizeIndex has no reason to reject",
 		"reference: own expand_message_xmd/hash_to_field (RFC 9380, SHA-384, DST 'ECDSA Key Blind', L=72) over minimal big-endian bytes(index key)||00||0003'IssuerBlind', crypto/elliptic point arithmetic, x/crypto/hkdf",
